@@ -23,7 +23,12 @@ func (br *BrotliReader) Read(p []byte) (n int, err error) {
 	if br.br == nil {
 		br.br = brotli.NewReader(br.Body)
 	}
-	return br.br.Read(p)
+	n, err = br.br.Read(p)
+	if err != nil && err != io.EOF {
+		// brotli.Reader reports a truncated stream once and a clean io.EOF afterwards
+		br.berr = err
+	}
+	return n, err
 }
 
 func (br *BrotliReader) Close() error {
